@@ -212,6 +212,12 @@ theorem ss_step_refines (P : Policy) (op : SsOp) (st : SsSt) :
   | appS r s => simp [SsOp.step, SsOp.spec, ssAbs_setR]
   | shlS r s => simp [SsOp.step, SsOp.spec, ssAbs_setR]
   | appU v r u => simp [SsOp.step, SsOp.spec, ssAbs_setR]
+  | appOwn v r off n =>
+    simp only [SsOp.step, SsOp.spec]
+    split <;> (try split) <;> simp [ssAbs_setR]
+  | asgOwn v r off n =>
+    simp only [SsOp.step, SsOp.spec]
+    split <;> simp [ssAbs_setR]
   | clear r => simp [SsOp.step, SsOp.spec, ssAbs_setR]
   | reset r => simp [SsOp.step, SsOp.spec, ssAbs_setR]
   | detach r => simp [SsOp.step, SsOp.spec, ssAbs_setR]
@@ -253,6 +259,12 @@ theorem ss_step_inv (P : Policy) (hP : P.Sound) (op : SsOp) (st : SsSt) (h : SsI
   | appS r s => exact all_setR st r _ h (StreamM.appendStream_inv P hP _ _)
   | shlS r s => exact all_setR st r _ h (StreamM.appendStream_inv P hP _ _)
   | appU v r u => exact all_setR st r _ h (StreamM.write_inv P hP _ _)
+  | appOwn v r off n =>
+    simp only [SsOp.step]
+    split <;> (try split) <;> exact all_setR st r _ h (StreamM.write_inv P hP _ _)
+  | asgOwn v r off n =>
+    simp only [SsOp.step]
+    split <;> exact all_setR st r _ h (StreamM.write_inv P hP _ _)
   | clear r => exact all_setR st r _ h (StreamM.clear_inv _)
   | reset r => exact all_setR st r _ h StreamM.empty_inv
   | detach r => exact all_setR st r _ h StreamM.empty_inv
